@@ -52,6 +52,9 @@ type abortTask struct{}
 
 // Sim is one simulated run inside a bubble.
 type Sim struct {
+	// Burst, if set, may name a second event (index into the enabled events of
+	// this step, the first one included in the list) to execute in the same step.
+	Burst    func(first Event, enabled []Event) int
 	C        Chooser
 	Tr       *Trace
 	MaxSteps int
@@ -333,6 +336,19 @@ func (s *Sim) Run() {
 		s.Tr.Ev("%s", e.Label)
 		s.Steps++
 		e.Run()
+		if s.Burst != nil {
+			// A second event of the same step, executed before the system quiesces:
+			// both stimuli are pending when the system's goroutines next run (the
+			// engine picks pairs that do not invalidate each other, e.g. a task's
+			// next operation and a network delivery).
+			if j := s.Burst(e, evs); j >= 0 && j < len(evs) {
+				e2 := evs[j]
+				s.Tr.Ev("+ %s", e2.Label)
+				s.Steps++
+				e2.Run()
+				G.Inc("sched.burst_pairs")
+			}
+		}
 	}
 }
 
